@@ -9,6 +9,7 @@
 import random
 
 import tskit
+from fractions import Fraction
 
 from harness import common, gen
 from harness.common import QUICK, SEED, Check
@@ -57,6 +58,20 @@ def observe_case(a, th, tracked, sample_lists, cmap, tmap, tscale, rng):
         for key, order in ORDERS:
             ob[key] = [int(u) for u in tree.nodes(order=order)]
         ob["leaves"] = [[int(v) for v in tree.leaves(u)] for u in range(N)]
+        ob["sackin"] = int(tree.sackin_index())
+        try:
+            ob["colless"] = int(tree.colless_index())
+        except tskit.LibraryError:
+            ob["colless"] = -1
+        fr = Fraction(float(tree.b1_index())).limit_denominator(10 ** 6)
+        ob["b1"] = [fr.numerator, fr.denominator]
+        ob["nchild"] = [int(tree.num_children(u)) for u in range(N)]
+        pl = []
+        for _ in range(4):
+            u, v = rng.randrange(N), rng.randrange(N)
+            x = tree.path_length(u, v)
+            pl.append([u, v, -1 if x == float("inf") else int(x)])
+        ob["pathlen"] = pl
         sub = rng.randrange(N + 1)  # may be the virtual root
         ob["subroot"] = sub
         ob["subpre"] = [int(u) for u in tree.nodes(sub, order="preorder")]
